@@ -1366,6 +1366,17 @@ def threshold_stream(ctx: Ctx, rng) -> None:
 
 def replay(ctx: Ctx, path: str) -> None:
     data = json.load(open(path))["replay"]
+    if "postsel" in data and "postsel_model" not in data:
+        print("replay: a PostSelection history recorded before replays carried the model form; rerun the check with the seed")
+        return
+    if "postsel_model" in data:
+        import postsel
+
+        for pr in postsel.replay_case(ctx, data):
+            print("replay:", pr)
+            (ctx.violation(pr, data, sig={"kind": "replay"}) if pr.startswith("oracle") else ctx.disagreement(pr, data))
+        ctx.case("replay", True)
+        return
     case = data["case"]
     if "threshold" in case:
         from lightworks.__settings import settings as lw_settings
